@@ -47,3 +47,173 @@ Record row := mk_row {
   r_params : list (string * bool);      (* type parameter, bounded by ZeroCopySend in the impl / definition *)
   r_fields : list (string * ty)
 }.
+
+(* ---------------------------------------------------------------------------------------
+   pi_free: why a type expression may hold an absolute address.  `offenders` lists the reasons
+   (empty list = address free); `pi_free` is its emptiness test, so the diagnostic printed by
+   ./check C14 and the decision in the theorem cannot drift apart. *)
+Inductive why :=
+| WRawPointer (text : string)      (* *const T / *mut T *)
+| WReference (text : string)       (* &T / &mut T *)
+| WFn (text : string)              (* fn pointer / trait object *)
+| WOther (text : string)           (* type expression the translator has no constructor for *)
+| WForbidden (path : string)       (* heap / address carrying std or iceoryx2 type *)
+| WUnknown (path : string)         (* nominal type that is neither a table row, nor a listed leaf, nor defined in the scanned crates *)
+| WUnboundedParam (name : string)  (* generic parameter stored by value that the impl does not bound by ZeroCopySend *)
+| WPointerFamily (text : string)   (* Ptr::Pointer<T> with a pointer family that is not known to be the relocatable one *)
+| WFuel.                           (* nesting deeper than the fuel (treated as a failure) *)
+
+(* types that carry an address of the creating process by construction *)
+Definition forbidden : list string :=
+  ["Box"; "Vec"; "String"; "NonNull"; "OwningPointer"; "Rc"; "Arc"; "Weak"; "VecDeque"; "BTreeMap"; "HashMap";
+   "CString"; "OsString"; "PathBuf"; "Cow"; "AtomicPtr"].
+
+(* nominal leaves that are not defined by a struct/enum item of the scanned crates and store
+   their content in place (no indirection); their type arguments are checked.
+     Atomic* ............ iceoryx2-bb/concurrency/src/atomic.rs `Impl!(AtomicU64, u64)`: a macro-generated
+                          wrapper around one integer (`unsafe impl ZeroCopySend` inside the macro)
+     MaybeUninit, UnsafeCell, Cell, ManuallyDrop, Option, Wrapping ... core wrappers, content in place
+     Duration ........... core::time::Duration { secs: u64, nanos: u32 }
+     Layout ............. core::alloc::Layout { size: usize, align: usize-like }: two numbers, no address
+   PhantomData is handled separately (zero sized: its argument is not stored). *)
+Definition leaf_ok : list string :=
+  ["AtomicBool"; "AtomicU8"; "AtomicU16"; "AtomicU32"; "AtomicU64"; "AtomicUsize";
+   "AtomicI8"; "AtomicI16"; "AtomicI32"; "AtomicI64"; "AtomicIsize";
+   "MaybeUninit"; "UnsafeCell"; "Cell"; "ManuallyDrop"; "Option"; "Wrapping"; "Duration"; "Layout"].
+
+Definition mem_str (s : string) (l : list string) : bool := existsb (String.eqb s) l.
+
+Record tables := mk_tables {
+  t_rows : list row;                       (* the shared-memory types *)
+  t_aux : list row;                        (* definitions of other types they name *)
+  t_families : list (string * string)      (* PointerFamily implementer -> its Pointer<T> *)
+}.
+
+(* the definitions a nominal type may denote: the one whose qualified name is the (use-expanded)
+   path when there is one, otherwise every definition with that short name *)
+Definition rows_named (rs : list row) (short path : string) : list row :=
+  match filter (fun r => String.eqb (r_qual r) path) rs with
+  | [] => filter (fun r => String.eqb (r_short r) short) rs
+  | exact => exact
+  end.
+
+Definition family_target (tb : tables) (fam : string) : option string :=
+  match find (fun p => String.eqb (fst p) fam) (t_families tb) with
+  | Some p => Some (snd p)
+  | None => None
+  end.
+
+Definition flat_map_l {A B} (f : A -> list B) (l : list A) : list B := fold_right (fun a acc => (f a ++ acc)%list) [] l.
+
+(* substitution of type arguments for the parameters of a generic definition *)
+Fixpoint subst (s : list (string * ty)) (t : ty) : ty :=
+  match t with
+  | TParam n => match find (fun p => String.eqb (fst p) n) s with Some p => snd p | None => t end
+  | TPath a b args => TPath a b (map (subst s) args)
+  | TAssoc base a args => TAssoc (subst s base) a (map (subst s) args)
+  | TArray e l => TArray (subst s e) l
+  | TSlice e => TSlice (subst s e)
+  | TTuple es => TTuple (map (subst s) es)
+  | TPtr m p => TPtr m (subst s p)
+  | TRef m p => TRef m (subst s p)
+  | TPrim _ | TFn _ | TOther _ => t
+  end.
+
+(* params_ok: which symbolic parameters may be stored by value (bounded by ZeroCopySend) *)
+Fixpoint offenders (fuel : nat) (tb : tables) (params_ok : string -> bool) (t : ty) {struct fuel} : list why :=
+  match fuel with
+  | O => [WFuel]
+  | S f =>
+    let go := offenders f tb params_ok in
+    match t with
+    | TPrim _ => []
+    | TParam n => if params_ok n then [] else [WUnboundedParam n]
+    | TPtr _ _ => [WRawPointer "raw pointer"]
+    | TRef _ _ => [WReference "reference"]
+    | TFn s => [WFn s]
+    | TOther s => [WOther s]
+    | TArray e _ => go e
+    | TSlice e => go e
+    | TTuple es => flat_map_l go es
+    | TPath short path args =>
+      if mem_str short forbidden then [WForbidden path]
+      else if String.eqb short "PhantomData" then []
+      else if mem_str short leaf_ok then flat_map_l go args
+      else match rows_named (t_rows tb) short path with
+           | _ :: _ => flat_map_l go args          (* a table row: checked as its own row *)
+           | [] =>
+             match rows_named (t_aux tb) short path with
+             | [] => [WUnknown path]
+             | cands =>
+               (* every candidate definition must be address free (sound when the translator could
+                  not tell homonyms apart); the type arguments of this use are substituted for the
+                  definition's parameters, so `MetaVec<usize, GenericRelocatablePointer>` is checked
+                  with Ptr := GenericRelocatablePointer *)
+               flat_map_l (fun r =>
+                 let s := combine (map fst (r_params r)) args in
+                 flat_map_l (fun ft => go (subst s (snd ft))) (r_fields r)) cands
+             end
+           end
+    | TAssoc base assoc args =>
+      match base with
+      | TPath fam _ [] =>
+        match family_target tb fam with
+        | Some target => go (TPath target target args)
+        | None => [WPointerFamily fam]
+        end
+      | TParam n => [WPointerFamily n]
+      | _ => [WPointerFamily assoc]
+      end
+    end
+  end.
+
+Definition FUEL : nat := 12.
+
+Definition pi_free (tb : tables) (params_ok : string -> bool) (t : ty) : bool :=
+  match offenders FUEL tb params_ok t with [] => true | _ => false end.
+
+(* ---------------------------------------------------------------------------------------
+   The allow-list: fields that DO hold an address (or an unchecked parameter) and are accepted
+   for a written reason.  Keyed by (qualified row name, field name). *)
+Record exception := mk_exc { e_row : string; e_field : string; e_reason : string }.
+
+(* May the generic parameter n of row r be stored by value?
+     derived rows: yes -- the derive macro (iceoryx2-bb/derive-macros/src/lib.rs) generates
+       `ZeroCopySend::__is_zero_copy_send(&self.field)` for every field, so rustc rejects the
+       type unless every field type, a bare parameter included, implements ZeroCopySend under
+       the declared bounds (often through a supertrait: `E: EventState`, `A: ShmAllocator`);
+     manual `unsafe impl` / RelocatableContainer-only rows: only when the impl spells the bound. *)
+Definition is_derived (r : row) : bool :=
+  existsb (fun o => match o with ODerive => true | _ => false end) (r_origins r).
+
+Definition row_params_ok (r : row) (n : string) : bool :=
+  is_derived r ||
+  match find (fun p => String.eqb (fst p) n) (r_params r) with
+  | Some p => snd p
+  | None => false
+  end.
+
+Definition excepted (ex : list exception) (r : row) (field : string) : bool :=
+  existsb (fun e => String.eqb (e_row e) (r_qual r) && String.eqb (e_field e) field) ex.
+
+Definition field_ok (tb : tables) (ex : list exception) (r : row) (ft : string * ty) : bool :=
+  excepted ex r (fst ft) || pi_free tb (row_params_ok r) (snd ft).
+
+Definition row_ok (tb : tables) (ex : list exception) (r : row) : bool :=
+  forallb (field_ok tb ex r) (r_fields r).
+
+(* diagnostics for ./check C14: the failing (row, field, reasons) triples *)
+Definition failing (tb : tables) (ex : list exception) : list (string * string * list why) :=
+  flat_map_l (fun r =>
+    flat_map_l (fun ft =>
+      if excepted ex r (fst ft) then []
+      else match offenders FUEL tb (row_params_ok r) (snd ft) with
+           | [] => []
+           | ws => [(r_qual r, fst ft, ws)]
+           end) (r_fields r)) (t_rows tb).
+
+(* an exception must name an existing field that really fails without it (no stale entries) *)
+Definition exception_live (tb : tables) (e : exception) : bool :=
+  existsb (fun r => String.eqb (r_qual r) (e_row e) &&
+    existsb (fun ft => String.eqb (fst ft) (e_field e) && negb (pi_free tb (row_params_ok r) (snd ft))) (r_fields r))
+    (t_rows tb).
